@@ -292,7 +292,9 @@ def _case(draw):
             if form.mode == "pos" and not any(ch.isspace() for ch in v):
                 st_ = s.strip()
                 off = len(s) - len(s.lstrip())
-                strict = {"slot_token": len(st_[: spans[0][0] - off].split())}
+                pre_ = st_[: spans[0][0] - off]
+                # (a quote or bracket glued to the secret belongs to the secret's own token)
+                strict = {"slot_token": len(pre_.split()) - (1 if pre_ and not pre_[-1].isspace() else 0)}
                 toks_ = st_.split()
                 if strict["slot_token"] >= len(toks_) or v not in toks_[strict["slot_token"]]:
                     strict = None
